@@ -317,6 +317,8 @@ func Run(cfg hx.Config) error {
 	pepExtra(r, rnd, cfg.N(3000, 100000))
 	pepRanges(r, rnd, cfg.N(3000, 100000))
 	projections(r, rnd, cfg.N(4000, 120000))
+	semverRun(r, rnd, cfg.N(3000, 100000))
+	osvRun(r, rnd, cfg.N(3000, 80000))
 
 	r.Notes["schemes"] = []string{"claircore.Version", "pkg/pep440", "ruby (gem)", "java (maven)", "pkg/rhctag", "go-rpm-version", "FromSemver"}
 	r.Notes["triples_per_scheme"] = n
